@@ -20,5 +20,5 @@ Extraction "model.ml"
   CliModel.cli
   SrcRun.src_hash_string SrcRun.src_hash_file SrcRun.src_aes SrcRun.src_mode SrcRun.src_b64_encode SrcRun.src_b64_decode
   SrcRun.src_b64_valid SrcRun.iob_state SrcRun.src_load SrcRun.src_export
-  SrcRun2.src_hmac SrcRun2.src_cmphmac SrcRun2.src_verify SrcRun2.src_header
+  SrcRun2.src_hmac SrcRun2.src_cmphmac SrcRun2.src_verify SrcRun2.src_header SrcRun2.src_mode_factory
   PipeConc.tag_run PipeConc.tag_tr PipeConc.tag_event PipeConc.terminal PipeConc.output PipeConc.crashed PipeConc.enabled_count.
